@@ -47,6 +47,9 @@ type Case struct {
 	// to the same <NAME>_OUTPUT) runs after the first pipeline on the same runner; its own dependant must read it.
 	Ctx    bool   `json:"ctx,omitempty"`
 	Second string `json:"second,omitempty"`
+	// Noise: the producer has a condition, a before and an after hook that print to standard output as well; the
+	// captured output is what the task's commands wrote
+	Noise bool `json:"noise,omitempty"`
 }
 
 func (c Case) canon() string { b, _ := json.Marshal(c); return string(b) }
@@ -206,6 +209,11 @@ func runAPI(c Case, dir string) error {
 	prod.Name, prod.ExportAs = c.Name, c.ExportAs
 	prod.Commands = c.prodCommands(dir)
 	prod.AllowFailure = c.Allow
+	if c.Noise {
+		prod.Condition = "printf 'NOISE-CONDITION\\n'; true"
+		prod.Before = []string{"printf 'NOISE-BEFORE\\n'"}
+		prod.After = []string{"printf 'NOISE-AFTER\\n'"}
+	}
 	for v := 0; v < c.NVar; v++ {
 		prod.Variations = append(prod.Variations, map[string]string{"V": fmt.Sprint(v)})
 	}
@@ -292,6 +300,9 @@ func runCLI(c Case, dir string) error {
 	}
 	if c.Allow {
 		prod = prod.Set("allow_failure", true)
+	}
+	if c.Noise {
+		prod = prod.Set("condition", "printf 'NOISE-CONDITION\\n'; true").Set("before", gen.List{"printf 'NOISE-BEFORE\\n'"}).Set("after", gen.List{"printf 'NOISE-AFTER\\n'"})
 	}
 	if c.NVar > 0 {
 		var l gen.List
@@ -464,6 +475,7 @@ func genCase(rt *rapid.T, cliMode bool) Case {
 	if len(c.dependants()) == 0 {
 		c.Edges = append(c.Edges, [2]int{c.Prod, c.N - 1})
 	}
+	c.Noise = rapid.IntRange(0, 2).Draw(rt, "printing-hooks") == 0
 	c.Ctx = rapid.IntRange(0, 2).Draw(rt, "named-context") == 0
 	if rapid.IntRange(0, 2).Draw(rt, "second-producer") == 0 {
 		c.Second = rapid.StringMatching(`[a-z0-9 ]{1,12}`).Draw(rt, "second-text")
@@ -513,6 +525,9 @@ func record(c Case) {
 	}
 	if transitive {
 		cls = append(cls, "transitive-consumer")
+	}
+	if c.Noise {
+		cls = append(cls, "producer-with-printing-condition-and-hooks")
 	}
 	if c.Ctx {
 		cls = append(cls, "named-context")
